@@ -6,8 +6,8 @@ import vlib
 
 META = {
     "category": "model_checking",
-    "text": "Presentation.tla transcribes the writer (Display for Label/Name, CharStr::display_quoted / display_unquoted, the ZonefileFmt and fmt::Display forms of Record and of TXT, HINFO, NS/CNAME/PTR/DNAME, MX and RFC 3597 generic data, the Simple / Tabbed / MultiLine FormatWriters with block parentheses, comments and newline()) and composes it with the reader machine of ZoneFile.tla; TLC checks Read(Render(Write(r, kind))) = <<r>> for every record of a field-kind grid over the 15 escape-relevant octets (labels and strings up to length 2 quick / 3 thorough, empty strings, root and multi-label names, classes, TTL bounds and unit multiples, generic data), all four forms, with and without origin (12.8k quick), the same law through the token route (record data as a token list read by the record-data scanners: IterScanner) and for label / character-string texts on their own (OwnedLabel::from_str, CharStr::from_str). Zones: MC_PresentZone.tla is a state machine that writes a zone record by record (a writer per record with a kind of its own, or all records through one FormatWriter with newline() between them) and reads the file so far with a configured reader (origin, set_default_class, allow_invalid) after every step; invariant: every record comes back in order, whatever class / TTL / owner the reader remembers from earlier entries, except that the strict reader ends at the first record of another class (RFC 1035 5.2); 8.7k states quick (2 records), 3 records thorough. Every case of both grids is executed on the real library in both directions (the library's text and the specification's text are read back); a grid over a hand-assembled wire RDATA table of 33 record types (A ... SVCB/HTTPS incl. dohpath / ohttp, ZONEMD, unknown) x variants x four forms x origin is executed with the round-trip law as expectation, also through the token route. Every case carries one combination of alias routes: how the record is built (Record::new, From tuples, set_class, RecordHeader::into_record, Record::parse with RecordHeader::compose), how its data is built (wire, typed constructors incl. Txt::from_octets / from_slice / parse_rdata, CharStr / Txt / SvcParams builders with the typed SvcParam methods and getters, OctetsFrom), which type is written (ZoneRecordData, AllRecordData, a reference, parsed names, a FormatWriter of the harness) and how the reader is set up (From<&[u8]>, From<&str>, load, BufMut, extend_from_slice, Default + reserve). Recorded runs on random records (all 256 octet values, labels to 63, strings to 255 octets) and random zones (2-5 records, mixed or uniform classes, random reader configuration and constructor) are validated by TLC: the specification's reader, given the library's text, must return what the library's reader returned, and that must be what was written.",
-    "note": "Trusted: TLC, the transcriptions in Presentation.tla / ZoneFile.tla, the harness (incl. its cutting of the library's tokens into words for the token route of the type sweep). The library's text is not compared literally (spacing and escape style are free); both texts are compared through the readers. Per-type field layouts are not modelled here (Rdata.tla, C05): the type sweep uses hand-assembled wire data and states only the round-trip law; its deviation guards are grid cells. Records are compared with the library's own equality (names case-insensitively) plus class and TTL; zone outcomes are compared entry by entry on wire forms. The strict reader's same-class check is taken from the reader's documentation / ZoneFile.tla. The token route does not offer SvcParams (Scanner::scan_svcb_octets is documented as implemented by some scanners only). Seven defects are modelled as named deviations (known findings), among them D_iterscanner_marker (IterScanner cannot read the RFC 3597 generic form); the reader's (C07) are taken into account when predicting a misreading.",
+    "text": "Presentation.tla transcribes the writer (Display for Label/Name, CharStr::display_quoted / display_unquoted, the ZonefileFmt and fmt::Display forms of Record and of TXT, HINFO, NS/CNAME/PTR/DNAME, MX and RFC 3597 generic data, the Simple / Tabbed / MultiLine FormatWriters with block parentheses, comments and newline()) and composes it with the reader machine of ZoneFile.tla; TLC checks Read(Render(Write(r, kind))) = <<r>> for every record of a field-kind grid over the 15 escape-relevant octets (labels and strings up to length 2 quick / 3 thorough, empty strings, root and multi-label names, classes, TTL bounds and unit multiples, generic data), all four forms, with and without origin (12.8k quick), the same law through the token route (record data as a token list read by the record-data scanners: IterScanner) and for label / character-string texts on their own (OwnedLabel::from_str, CharStr::from_str). Restricted-alphabet token fields: Presentation.tla has field kinds (CAA tag, u8 / u16 scanned digit by digit, IANA integers read by str::parse, type mnemonics / TYPEnnn, NSEC3 salt, hex data) with FieldAlphabet / Admitted(kind, v) = what the constructors and the wire parser admit, FieldWrite / FieldRead, and the law FieldRead(FieldWrite(v)) = v over everything admitted; carrier records (CAA, NSEC, TLSA, NSEC3PARAM, MX) take the fields through the whole-record and token-route laws at the boundary characters ('A' 'Z' 'a' 'z' '0' '9', tags to length 2 quick / 3 thorough and longer mixed-case ones) and boundary values (ends of the range, changes of the digit count, every type mnemonic and TYPEnnn next to them); for CAA, which the reader of ZoneFile.tla abstains on, a line reader built from its tokenizer, scan_ctr, scan_name and the field readers; values just outside an alphabet are cases too (expectation: the constructors refuse them). Zones: MC_PresentZone.tla is a state machine that writes a zone record by record (a writer per record with a kind of its own, or all records through one FormatWriter with newline() between them) and reads the file so far with a configured reader (origin, set_default_class, allow_invalid) after every step; invariant: every record comes back in order, whatever class / TTL / owner the reader remembers from earlier entries, except that the strict reader ends at the first record of another class (RFC 1035 5.2); 8.7k states quick (2 records), 3 records thorough. Every case of both grids is executed on the real library in both directions (the library's text and the specification's text are read back); a grid over a hand-assembled wire RDATA table of 33 record types (A ... SVCB/HTTPS incl. dohpath / ohttp, ZONEMD, unknown) x variants x four forms x origin is executed with the round-trip law as expectation, also through the token route. Every case carries one combination of alias routes: how the record is built (Record::new, From tuples, set_class, RecordHeader::into_record, Record::parse with RecordHeader::compose), how its data is built (wire, typed constructors incl. Txt::from_octets / from_slice / parse_rdata, CharStr / Txt / SvcParams builders with the typed SvcParam methods and getters, OctetsFrom), which type is written (ZoneRecordData, AllRecordData, a reference, parsed names, a FormatWriter of the harness) and how the reader is set up (From<&[u8]>, From<&str>, load, BufMut, extend_from_slice, Default + reserve). Recorded runs on random records (all 256 octet values, labels to 63, strings to 255 octets) and random zones (2-5 records, mixed or uniform classes, random reader configuration and constructor) are validated by TLC: the specification's reader, given the library's text, must return what the library's reader returned, and that must be what was written.",
+    "note": "Trusted: TLC, the transcriptions in Presentation.tla / ZoneFile.tla, the harness (incl. its cutting of the library's tokens into words for the token route of the type sweep). The library's text is not compared literally (spacing and escape style are free); both texts are compared through the readers. Per-type field layouts are not modelled here (Rdata.tla, C05): the type sweep uses hand-assembled wire data and states only the round-trip law; its deviation guards are grid cells. Records are compared with the library's own equality (names case-insensitively) plus class and TTL; zone outcomes are compared entry by entry on wire forms. The strict reader's same-class check is taken from the reader's documentation / ZoneFile.tla. The token route does not offer SvcParams (Scanner::scan_svcb_octets is documented as implemented by some scanners only). Admitted(kind, v) is bound to the library by building every carrier record both from its wire form and through the typed constructors (CaaTag::new / from_octets / from_slice, Caa::new, Tlsa::new, Nsec3param::new, Nsec3Salt::from_octets, RtypeBitmapBuilder); a value the specification does not admit but the library does is only reported when the round trip fails for it. u32 fields and RRSIG times reach their upper ends only in the type sweep (TLC integers are 32 bit); SVCB keyNNNNN, NAPTR / HINFO strings, algorithm numbers of DNSKEY / DS / RRSIG are covered by the type sweep and the character-string grid, not as field kinds. Eight defects are modelled as named deviations (known findings), among them D_caa_empty_tag (the constructors admit the empty CAA tag, which is written as nothing) and D_iterscanner_marker (IterScanner could not read the RFC 3597 generic form; fixed); the reader's (C07) are taken into account when predicting a misreading.",
     "technique": "TLA+ spec (Presentation.tla + ZoneFile.tla; MC_Presentation field grid, MC_PresentZone zone state machine) + TLC exhaustive; spec->impl case replay in both directions over alias routes; impl->spec trace validation (records and zones)",
     "design_ref": "DESIGN.md §4 C06",
 }
@@ -38,7 +38,8 @@ def _groups_from_cases(ctx, res, path):
         ctx.coverage_actions[a] = (od + n, og + n)
 
 
-GROUPS = ["owner1", "owner2", "txt", "hinfo", "name", "mx", "generic", "ctt"]
+GROUPS = ["owner1", "owner2", "txt", "hinfo", "name", "mx", "generic", "ctt", "caa", "bitmap", "ints"]
+FIELD_TYPES = [257, 47, 52, 51]      # carriers of the restricted-alphabet token fields
 ZONE_ACTIONS = ["WriteRecordCat", "BeginZoneFmt", "WriteRecordFmt"]
 ZONE_CELLS = ["allow-mixed", "allow-same", "strict-mixed", "strict-same"]
 MK = ["new", "tuple_u32", "tuple_ttl", "in_default", "header", "parse"]
@@ -82,6 +83,11 @@ def run(ctx):
     d = ctx.tlc("MC_Presentation", "MC_Presentation_dev", workers=4, label="mc-dev", coverage=False,
                 expect_violation="ReadEqualsWritten", count=False)
     ctx.require_ok(d, "MC_Presentation_dev (expected counterexample: writer escape set vs reader specials)")
+    # the field deviation: with the empty CAA tag admitted (as the constructors do
+    # today) the law has a counterexample
+    df = ctx.tlc("MC_Presentation", "MC_Presentation_devf", workers=4, label="mc-devf", coverage=False,
+                 expect_violation="ReadEqualsWritten", count=False)
+    ctx.require_ok(df, "MC_Presentation_devf (expected counterexample: the empty CAA tag is written as nothing)")
 
     # 2. S->I: field-kind grid, both directions ------------------------------
     cases = os.path.join(ctx.work, "cases.ndjson")
@@ -93,6 +99,11 @@ def run(ctx):
     _groups_from_cases(ctx, gen, cases)
     ctx.require_actions(gen, GROUPS)
     _count(ctx, gen, cases, ["route"])
+    # vacuity guard of the restricted-alphabet fields: records the constructors
+    # admit (adm absent) and records they do not (adm = false) were generated
+    nadm = _count(ctx, gen, cases, ["adm"]).get("adm=False", 0)
+    if nadm < 50:
+        raise vlib.ToolError("no cases outside the constructor-admitted field values")
     ctx.require_actions(gen, ["route0=" + x for x in MK] + ["route1=" + x for x in MKD] + ["route2=" + x for x in WR])
     head = os.path.join(ctx.work, "head.ndjson")
     with open(cases) as f, open(head, "w") as g:
@@ -154,6 +165,10 @@ def run(ctx):
         rec = json.loads(out[out.index("RECORDED ") + 9:].splitlines()[0])
         if rec.get("zones", 0) < 20 or rec.get("zones_read_through", 0) < 10:
             raise vlib.ToolError("recorder produced too few zone events")
+        text = open(tr).read()
+        for t in FIELD_TYPES:
+            if text.count('"ev":"rt"') and text.count('"rtype":%d,' % t) < 20:
+                raise vlib.ToolError("recorder produced too few records of type %d" % t)
         ctx.evaluations += rec["events"]
         ctx.stage("record-%d" % i, rec)
         ok, res, rej = ctx.validate_trace("Trace_Presentation", "Trace_Presentation", tr, label="trace-%d" % i)
@@ -181,6 +196,25 @@ def run(ctx):
             open(bad, "w").write("\n".join(lines) + "\n")
             ok2, _, _ = ctx.validate_trace("Trace_Presentation", "Trace_Presentation", bad, label="trace-selftest")
             ctx.selftest("corrupted trace is rejected by Trace_Presentation", not ok2)
+            # record written and record read agree on other CAA flags than the text
+            # has: only the line reader of Presentation.tla (CAA is outside
+            # ZoneFile.tla), reading the text, can object
+            lines = open(tr).read().splitlines()
+            done = False
+            for j, l in enumerate(lines):
+                o = json.loads(l)
+                if o.get("ev") == "rt" and o.get("eq") and o["rec"]["rtype"] == 257:
+                    o["res"]["entries"][0]["rdata"][0] = (o["res"]["entries"][0]["rdata"][0] + 1) % 256
+                    o["rec"]["rdata"][0] = o["res"]["entries"][0]["rdata"][0]
+                    lines = [lines[0], json.dumps(o)]
+                    done = True
+                    break
+            if not done:
+                raise vlib.ToolError("no CAA event to corrupt for the trace self-test")
+            badc = os.path.join(ctx.work, "trace-badcaa.ndjson")
+            open(badc, "w").write("\n".join(lines) + "\n")
+            ok4, _, _ = ctx.validate_trace("Trace_Presentation", "Trace_Presentation", badc, label="trace-selftest-caa")
+            ctx.selftest("CAA event with other flags is rejected by Trace_Presentation", not ok4)
             # a zone read with allow_invalid whose last record comes back with the
             # class of the first one (what a reader that lets its remembered class
             # win would return)
@@ -208,4 +242,5 @@ def run(ctx):
     ctx.assume("type sweep: hand-assembled wire RDATA per type; only the round-trip law is stated for it")
     ctx.assume("zones: pool of 6 records (3 classes, 5 TTLs, 4 owners, TXT/NS/MX/HINFO/generic), up to 2 (quick) / 3 (thorough) records per file; strict reader: the RFC 1035 5.2 same-class check is part of the expectation")
     ctx.assume("routes (record / data constructors, data types written, reader constructors) are aliases: one combination per case, spread over the grid")
+    ctx.assume("restricted-alphabet fields: CAA tag (strings over 'A' 'Z' 'a' 'z' '0' '9' to length 2 quick / 3 thorough, longer mixed-case tags, the characters just outside, the empty tag), u8 / u16 / IANA-integer fields at the ends of their ranges and where the digit count changes, every type mnemonic and TYPEnnn next to them in an NSEC bitmap, NSEC3 salts; carriers CAA, NSEC, TLSA, NSEC3PARAM, MX; u32 fields and RRSIG times only through the type sweep (TLC integers are 32 bit)")
     ctx.assume("token route: the specification's tokens (field grid) and the library's tokens cut into words by the harness (type sweep) are read by IterScanner; SvcParams are outside it (Scanner::scan_svcb_octets is not implemented by IterScanner, documented)")
